@@ -28,10 +28,23 @@ type Session struct {
 	torn    bool
 	dead    bool
 	Log     []string
+	// coarse mode (histories with writes of several MiB, whose split into Write calls is decided by pebble's
+	// log-flushing goroutine and is not the same in every run): a Write is not a crash point of its own; crash
+	// points are the other mutations (create, sync, rename, ...), and "the data written since the previous
+	// crash point reached the disk only up to byte b" is expressed with a byte budget for the last interval.
+	coarse   bool
+	tail     int   // >= 0: after mutation crashAt-1 only this many written bytes are applied, then the session dies
+	sinceEv  int   // bytes written since the last counted mutation
+	Unsynced []int // Unsynced[k-1] = bytes written between counted mutation k-1 and k (reference runs)
 }
 
 func (w *World) NewSession(crashAt int, tornLastWrite bool) *Session {
 	return &Session{w: w, crashAt: crashAt, torn: tornLastWrite}
+}
+
+// NewCoarseSession: see the coarse fields of Session. tail < 0 applies every write made before mutation crashAt.
+func (w *World) NewCoarseSession(crashAt int, tail int) *Session {
+	return &Session{w: w, crashAt: crashAt, coarse: true, tail: tail}
 }
 
 func (s *Session) Count() int { s.mu.Lock(); defer s.mu.Unlock(); return s.count }
@@ -48,6 +61,10 @@ func (s *Session) tick(op string) (bool, bool) {
 		return false, false
 	}
 	s.count++
+	if s.coarse {
+		s.Unsynced = append(s.Unsynced, s.sinceEv)
+		s.sinceEv = 0
+	}
 	if len(s.Log) < 4000 {
 		s.Log = append(s.Log, op)
 	}
@@ -147,7 +164,35 @@ type file struct {
 	name string
 }
 
+// coarseWrite accounts for a write in coarse mode and returns how many bytes of it reach the file.
+func (s *Session) coarseWrite(n int) int {
+	s.mu.Lock()
+	defer s.mu.Unlock()
+	if s.dead {
+		return 0
+	}
+	if s.tail >= 0 && s.crashAt != 0 && s.count == s.crashAt-1 {
+		left := s.tail - s.sinceEv
+		if n >= left {
+			s.dead = true
+			s.sinceEv += left
+			return left
+		}
+	}
+	s.sinceEv += n
+	return n
+}
+
 func (f *file) Write(p []byte) (int, error) {
+	if f.s.coarse {
+		if k := f.s.coarseWrite(len(p)); k < len(p) {
+			if k > 0 {
+				_, _ = f.File.Write(append([]byte{}, p[:k]...))
+			}
+			return len(p), nil
+		}
+		return f.File.Write(p)
+	}
 	ok, torn := f.s.tick(fmt.Sprintf("write %s %d", f.name, len(p)))
 	if !ok {
 		if torn && len(p) > 1 {
